@@ -60,7 +60,11 @@ CHECKS = {
                      "with direct evaluation of the AST on the ordered gate/measurement trace, controller arrays and registers "
                      "after each flush, and the host-side value of every live Future/RegFuture/Array handle after each flush. The "
                      "reduced x small pair pool also runs on the NV hardware config with and without the NV transpiler (measurement "
-                     "outcomes, memory, handles and the final state of the persistent qubit).",
+                     "outcomes, memory, handles and the final state of the persistent qubit). Two further families: 653 programs around "
+                     "less-used entry points (builder.new_register, array entries indexed by a Future, additions of 0 with a modulus, "
+                     "loops counting down), and every sequence of 3 (thorough 4) array-lifecycle operations (new array with / without "
+                     "values, flush, add to an entry, measure into an entry) on connections with and without ret_arr, judged against a model "
+                     "of the controller arrays and the host handles after every flush.",
                 note="programs beyond the size/nesting bound and SDK usages outside the grammar are not covered; quantum hooks of the "
                      "controller are harness code (exact state vector); one open known finding (ret_reg of a never-written register)",
                 ref="3/C05"),
@@ -175,7 +179,7 @@ CHECKS = {
                      "that normalise their own scratch registers",
                 ref="3/C13"),
     "C14": dict(cat="model_checking", tech="explicit-state BFS over completed-SDK-operation histories on the builder's register economy until the state graph closes; nesting families executed on the real controller",
-                text="Breadth-first search over histories of 41 kinds of completed SDK operations (loops also with an explicit loop register, start and step) plus flush (forced at the latest after 15 "
+                text="Breadth-first search over histories of 44 kinds of completed SDK operations (loops also with an explicit loop register, start and step) plus flush (forced at the latest after 15 "
                      "operations) on one connection, hashing the builder's register economy; every transition compiles and serialises "
                      "the real subroutine. Every completed operation must return the pool to the state it found (no active register, "
                      "no measurement register beyond live RegFutures, no open context), also after a probing flush that follows every "
@@ -214,7 +218,7 @@ CHECKS = {
                 note="operands in range; 32-bit integers on the boundary lattice",
                 ref="3/C17"),
     "C18": dict(cat="model_checking", tech="stateless schedule exploration of the implementation: CHESS-style iterative context bounding on real threads (sys.settrace baton scheduler, scheduler-aware lock and sleep, fair scheduling for 3 threads, audited preemption-placement reduction)",
-                text="For 14 scenarios (plain, structured and silent send/receive, blocking and non-blocking, message values incl. the empty string) of 2-3 real ThreadSocket / StorageThreadSocket / broadcast-channel endpoints (<= 4 sends or receives each; "
+                text="For 15 scenarios (plain, structured and silent send/receive, blocking and non-blocking, message values incl. the empty string) of 2-3 real ThreadSocket / StorageThreadSocket / broadcast-channel endpoints (<= 4 sends or receives each; "
                      "plain, structured, callback, non-blocking, two socket ids, close while draining, either side first) every thread "
                      "schedule with <= 2 (quick) / <= 3 (thorough) preemptions at statement granularity in socket_hub.py, "
                      "thread_socket/socket.py and broadcast_channel.py is executed on the real code. Per direction and socket id the "
